@@ -893,5 +893,5 @@ MANIFEST = {
              "behaviour (int() semantics, width tables) is not decided.",
     "note": "Trusted: CPython ast/re parser/struct/int semantics; the tiny evaluators in sa/engines (ordereval, bitprov, regexlang). Not decided: "
             "enum uniqueness beyond the frozen wire-tag list.",
-    "technique": "static analysis: AST abstract interpretation (order types, bit provenance), regex automata equivalence, structural rules, finite-model evaluation of byte helpers and BCD parsing (same-module functions stepped into), helper following, reverse_bits and swap_bytes on exhaustive small models, BCD text grammar model",
+    "technique": "static analysis: AST abstract interpretation (order types, bit provenance), regex automata equivalence, structural rules, finite-model evaluation of byte helpers and BCD parsing (same-module functions stepped into), helper following, reverse_bits and swap_bytes on exhaustive small models, BCD text grammar model, value_to_int interpreted on an exhaustive small-alphabet text set against the documented grammar",
 }
